@@ -227,7 +227,9 @@ impl Store {
             Entry::Condvar(entry) => entry.last_dependent_access(),
             Entry::Notify(entry) => entry.last_dependent_access(),
             Entry::RwLock(entry) => entry.last_dependent_access(),
-            Entry::Channel(entry) => entry.last_dependent_access(operation.action.into()),
+            Entry::Channel(entry) => {
+                return entry.for_each_dependent_access(operation.action.into(), f);
+            }
             obj => panic!(
                 "object is not branchable {:?}; ref = {:?}",
                 obj, operation.obj
